@@ -10,7 +10,9 @@ struct RObj { uint8_t sub; uint8_t width; };
 struct RpdoModel { bool exists = false, valid = true; uint8_t type = 254; uint32_t id = 0; std::vector<RMap> map; uint32_t mapped = 0; int hasNew = 0; /* 0 no, 1 yes, 2 unknown */ uint8_t buf[8]; bool sync() const { return type <= 240; } };
 
 struct RpdoRun : NodeEnv {
-    bool lowIdx = false;
+    bool lowIdx = false; int nTpdo = 0;   // nTpdo > 0: synchronous / event TPDOs with the same channel numbers share the SYNC bookkeeping and the mapped objects with the RPDOs
+    bool tpdoFrame(const Frame &f) const { if (!nTpdo || (f.id & 0x7F) != nodeId) return false; uint32_t fc = f.id & 0x780; return fc == 0x180 || fc == 0x280 || fc == 0x380 || fc == 0x480; }
+    void dropTpdo(Fx &fx) { fx.tx.erase(std::remove_if(fx.tx.begin(), fx.tx.end(), [this](const Frame &f) { return tpdoFrame(f); }), fx.tx.end()); }
     int m = M_PREOP; std::vector<RpdoModel> R; std::vector<RObj> objs; std::map<uint8_t, uint32_t> val;
     RpdoRun(const Plan &p, Cov &c, bool vb) : NodeEnv(p, c, vb) {}
     void build() {
@@ -37,6 +39,9 @@ struct RpdoRun : NodeEnv {
             r.mapped = total;
             add_rpdo(specs, n, r.id | (r.valid ? 0 : 0x80000000u), r.type, links, false);
         }
+        nTpdo = objs.empty() ? 0 : (int)std::min<int64_t>(plan.c("tpdos", 0), CO_TPDO_N);
+        for (int n = 0; n < nTpdo; n++) add_tpdo(specs, n, 0x40000180u + 0x100u * (uint32_t)n + nodeId, (uint8_t)(plan.c("tpdotype", 1) ? 1 : 254), 0, 0, {CO_LINK(0x2100, objs[(size_t)n % objs.size()].sub, objs[(size_t)n % objs.size()].width * 8)}, true);
+        if (nTpdo) cov.hit("tpdos-share-channel-numbers-and-objects-with-rpdos");
         NodeCfg cfg; cfg.nodeId = nodeId; cfg.freq = freq; cfg.tmrNum = 8;
         w.build(0, cfg, specs); w.init(0); w.start(0);
         if (CONodeGetErr(N()) != CO_ERR_NONE) fail("setup/node-error", "node reports an error after initialisation");
@@ -58,12 +63,16 @@ struct RpdoRun : NodeEnv {
         else if (k == "nmt") { uint8_t cs = (uint8_t)o.arg(0); deliver(Frame(0, 2, {cs, 0})); int old = m; if (cs == 1) m = M_OP; else if (cs == 2) m = M_STOP; else if (cs == 128 || cs == 129 || cs == 130) m = M_PREOP;
             if (old != m) for (auto &r : R) if (r.hasNew == 1) { r.hasNew = 2; cov.hit("nmt-change-with-buffered-frame"); } if (cs == 129 || cs == 130) for (auto &r : R) r.hasNew = 0; }
         else if (k == "rcvret") { S().pdoReceiveRet = (int)o.arg(0); }
+        else if (k == "tpdowr") {   // reconfiguration of the TPDO with the same channel number while an RPDO frame may be buffered: the RPDO side must not notice
+            if (!nTpdo || m == M_STOP || m == M_INIT) return; int n = (int)(o.arg(0) % nTpdo); uint32_t id = 0x40000180u + 0x100u * (uint32_t)n + nodeId;
+            if (o.arg(1) == 0) (void)sdoWrite((uint16_t)(0x1800 + n), 1, id | 0x80000000u, 4); else if (o.arg(1) == 1) (void)sdoWrite((uint16_t)(0x1800 + n), 1, id, 4); else (void)sdoWrite((uint16_t)(0x1800 + n), 2, (uint32_t)(o.arg(2) & 1 ? 1 : 254), 1);
+            cov.hit("tpdo-reconfigured-next-to-rpdo"); for (auto &r : R) if (r.hasNew == 1) { cov.hit("tpdo-reconfigured-while-rpdo-frame-buffered"); nontrivial = true; } }
         else if (k == "wr") { if (objs.empty()) return; const RObj &d = objs[(size_t)o.arg(0) % objs.size()]; uint32_t v2 = (uint32_t)o.arg(1) & (d.width == 4 ? 0xFFFFFFFFu : ((1u << (8 * d.width)) - 1)); w.cur = 0; CO_ERR e = d.width == 1 ? CODictWrByte(&N()->Dict, CO_DEV(0x2100, d.sub), (uint8_t)v2) : d.width == 2 ? CODictWrWord(&N()->Dict, CO_DEV(0x2100, d.sub), (uint16_t)v2) : CODictWrLong(&N()->Dict, CO_DEV(0x2100, d.sub), v2); if (e != CO_ERR_NONE) { fail("rpdo/api-write-refused", "dictionary write returned " + std::to_string((int)e)); return; } val[d.sub] = v2; }
         else if (k == "rpdo") {
             int n = (int)(o.arg(0) % CO_RPDO_N); int delta = (int)o.arg(1); RpdoModel &r = R[(size_t)n]; uint32_t id = (0x200u + 0x100u * (uint32_t)n + nodeId + (uint32_t)delta) & 0x7FF; if (id == 0x601 || id == 0x80 || id == 0) return;
             uint8_t dlc = (uint8_t)o.arg(2, 8); if (dlc > 8) dlc = 8; if (delta == 0 && r.exists && dlc < r.mapped) dlc = 8;     // DLC below the mapped length: not constrained, not generated
             Frame f(id, dlc, o.b); bool match = false; RpdoModel *hit = nullptr; for (auto &x : R) if (x.exists && x.valid && x.id == id) { match = true; hit = &x; }
-            Fx fx = deliver(f);
+            Fx fx = deliver(f); dropTpdo(fx);
             if (m == M_OP && match) {
                 expRecv = 1; if (fx.appRx) fail("rpdo/consumed-and-passed-on", "RPDO also handed to the application callback");
                 if (S().pdoReceiveRet == 0) { if (!hit->sync()) { apply(*hit, f.d); cov.hit("async-applied"); } else { memcpy(hit->buf, f.d, 8); if (hit->hasNew == 1) cov.hit("sync-frame-overwritten"); hit->hasNew = 1; cov.hit("sync-frame-buffered"); } bool anyDummy = false; for (auto &me : hit->map) anyDummy |= me.dummy; if (anyDummy) { cov.hit("mapping-with-dummy"); nontrivial = true; } }
@@ -72,7 +81,7 @@ struct RpdoRun : NodeEnv {
             if (!fx.tx.empty()) fail("rpdo/tx", "transmission on RPDO reception: " + fx.tx[0].str());
         }
         else if (k == "sync") {
-            Fx fx = deliver(Frame(0x80, 0, {}));
+            Fx fx = deliver(Frame(0x80, 0, {})); dropTpdo(fx);
             if (m == M_OP) { for (auto &r : R) if (r.exists && r.valid && r.sync()) { if (r.hasNew == 1) { apply(r, r.buf); r.hasNew = 0; expSyncUpd++; cov.hit("sync-applied"); nontrivial = true; } else if (r.hasNew == 2) { std::map<uint8_t, uint32_t> keep = val; apply(r, r.buf); alts.push_back(val); val = keep; r.hasNew = 0; maybeSyncUpd++; } else cov.hit("sync-without-reception"); } }
             else { cov.hit("sync-outside-op"); if (m == M_PREOP) for (auto &r : R) if (r.hasNew) { r.hasNew = 0; cov.hit("buffered-frame-missed-its-sync"); } }   // the SYNC that follows the reception is recognised but may change nothing: the frame's chance has passed
             if (!fx.tx.empty()) fail("rpdo/tx", "transmission on SYNC: " + fx.tx[0].str());
@@ -104,7 +113,7 @@ struct RpdoRun : NodeEnv {
 };
 
 Plan gen_rpdo(Rng &r, bool thorough) {
-    Plan p; int nobj = (int)r.range(1, 10); p.cfg["lowidx"] = r.chance(1, 4);
+    Plan p; int nobj = (int)r.range(1, 10); p.cfg["lowidx"] = r.chance(1, 4); bool tp = r.chance(1, 3); p.cfg["tpdos"] = tp ? (int64_t)r.range(1, 4) : 0; p.cfg["tpdotype"] = r.chance(3, 4);
     for (int i = 0; i < nobj; i++) p.ops.push_back(Op("obj", {r.pick<int64_t>({1, 1, 2, 2, 4, 4}), (int64_t)r.below(2), (int64_t)r.below(0x10000) * 65537}));
     for (int n = 0; n < 4; n++) if (r.chance(2, 3)) { Op c("rpdocfg", {n, (int64_t)r.chance(5, 6), r.chance(1, 2) ? r.pick<int64_t>({1, 1, 2, 240}) : r.pick<int64_t>({254, 255})}); int nm = (int)r.range(1, 8); for (int j = 0; j < nm; j++) { c.b.push_back(r.chance(1, 4) ? 200 : (uint8_t)r.below((uint32_t)nobj)); c.b.push_back(r.byte()); } p.ops.push_back(c); }
     if (r.chance(9, 10)) p.ops.push_back(Op("nmt", {1}));
@@ -116,6 +125,7 @@ Plan gen_rpdo(Rng &r, bool thorough) {
         else if (c < 14) p.ops.push_back(Op("sync"));
         else if (c < 16) p.ops.push_back(Op("wr", {(int64_t)r.below((uint32_t)nobj), (int64_t)r.below(0x10000) * 65537}));
         else if (c < 18) p.ops.push_back(Op("nmt", {r.pick<int64_t>({1, 1, 2, 128, 128, 130})}));
+        else if (c == 18 && tp) p.ops.push_back(Op("tpdowr", {(int64_t)r.below(4), (int64_t)r.below(3), (int64_t)r.below(2)}));
         else if (c == 18) p.ops.push_back(Op("rcvret", {(int64_t)r.below(2)}));
         else if (r.chance(1, 2)) { std::vector<uint8_t> b; for (int j = 0; j < 8; j++) b.push_back(r.byte()); p.ops.push_back(Op("lost", {(int64_t)r.below(4), (int64_t)r.below(2), (int64_t)r.chance(1, 3)}, b)); }
         else p.ops.push_back(Op("tick", {r.range(1, 10)}));
